@@ -162,7 +162,7 @@ def run_cpython(src, limit=400, extra=None, filename="<prog>"):
     g["__name__"] = "prog"
     exc = None
     try:
-        code = compile(src, filename, "exec")
+        code = compile(src, filename, "exec", dont_inherit=True)
     except (SyntaxError, ValueError) as e:
         return {"compile_error": type(e).__name__ + ": " + str(e)}
     try:
